@@ -1230,7 +1230,7 @@ func (db *DB) allocate(txid common.Txid, count int) (*common.Page, error) {
 		if nextAllocSize > db.MaxSize {
 			db.Logger().Errorf("[GOOS: %s, GOARCH: %s] maximum db size reached, minSize: %d (allocSize: %d), db.MaxSize: %d", runtime.GOOS, runtime.GOARCH, minsz, nextAllocSize, db.MaxSize)
 			if common.VerifEnabled {
-				db.verifEvent("AllocRefused", txid)
+				db.verifRefused(txid, count)
 			}
 			return nil, berrors.ErrMaxSizeReached
 		}
